@@ -175,6 +175,8 @@ def _wrap_mpr():
     def discover(c1, c2, max_iterations):
         r = o_discover(c1, c2, max_iterations)
         bump("discover_" + r[0].name)
+        _mpr_last["portal_obj"] = r[1]
+        _mpr_last["state"] = r[0].name
         return r
 
     def refine(c1, c2, portal, tol):
@@ -278,7 +280,10 @@ def run_op(op, s1, s2):
         elif name == "mpr_pen":
             inter, depth, pdir, pos = MPR.mpr_penetration(c1, c2, **kw)
             early = (None if depth is None else float(depth), arr(pdir), arr(pos))
-            saved_arms, saved_last = dict(ARM), dict(_mpr_last)
+            po = _mpr_last.pop("portal_obj", None)
+            if po is not None:      # the portal the query ended with (copied before anything else runs)
+                out["final_portal"] = dict(v=arr(po.v), v1=arr(po.v1), v2=arr(po.v2), state=_mpr_last.get("state"))
+            saved_arms, saved_last = dict(ARM), {k: v for k, v in _mpr_last.items() if k != "portal_obj"}
             # results are read only after another, unrelated query has been made (a caller that collects
             # the contacts of all candidate pairs first): a result that aliases internal scratch state changes
             _interleaved_query()
